@@ -88,6 +88,12 @@ def _ref(doc: Any, ctx: Dict[str, Any]) -> List[Any]:
     if REF == "ctx-eq":
         k = ctx["k"]
         return [((i,), x) for i, x in enumerate(doc) if isinstance(x, dict) and "a" in x and _jeq(x["a"], k)]
+    if isinstance(REF, list):
+        # a union of operands, each given as [standard query, wrap?]: the fake root is decided per operand
+        outl: List[Any] = []
+        for std, wrapped in REF:
+            outl.extend(sig(ENV.compile(std).finditer([doc] if wrapped else doc, filter_context=ctx)))
+        return outl
     raise KeyError(REF)
 
 
@@ -117,7 +123,7 @@ def equiv(l0: LT, l1: LT, l2: int, l3: int, n: int, b0: bool, b1: bool, b2: bool
         exp = sig(C_STD.finditer(target, filter_context=ctx))
         return ok(why(_same(got, exp, values_only=WRAP), "extension differs from standard spelling", EXT, STD, got, exp))
     exp = _ref(doc, ctx)
-    return ok(why(_same(got, exp), "extension differs from documented meaning", EXT, REF, got, exp))
+    return ok(why(_same(got, exp, values_only=isinstance(REF, list)), "extension differs from documented meaning", EXT, REF, got, exp))
 
 
 def _norm(x: Any) -> Any:
